@@ -140,13 +140,19 @@ pub fn nudge_to_calendar_unit(sign: i64, dur: &Internal, dest_epoch_ns: i128, or
     let end = cal_add(origin.date, end_dur)?;
     let start_ns = Dt::new(start, origin.tod).epoch_ns();
     let end_ns = Dt::new(end, origin.tod).epoch_ns();
-    assert!(start_ns != end_ns);
+    if start_ns == end_ns {
+        return Err(DErr::SpecAssert);
+    }
     let (mut num, mut den) = (dest_epoch_ns - start_ns, end_ns - start_ns);
     if den < 0 {
         num = -num;
         den = -den;
     }
-    assert!(num >= 0 && num <= den, "destination outside the bracket");
+    if !(num >= 0 && num <= den) {
+        // e.g. P1M + 1 ns from January 31: the difference is 29 days (the month is not counted
+        // because Feb 31 surpasses Feb 29) but Jan 31 + 1 month is constrained to Feb 29 00:00
+        return Err(DErr::SpecAssert);
+    }
     // total = r1 + progress * inc * sign
     let total = (r1 as i128 * den + num * inc as i128 * sign as i128, den);
     let um = unsigned_mode(mode, sign < 0);
